@@ -17,7 +17,9 @@ fn observe(r: Result<bpaf_verif_harness::val::Val, bpaf::ParseFailure>) -> J {
 }
 
 fn main() {
-    std::panic::set_hook(Box::new(|_| {}));
+    if std::env::var("VERIF_PANICS").is_err() {
+        std::panic::set_hook(Box::new(|_| {}));
+    }
     let args: Vec<String> = std::env::args().collect();
     let defs_path = &args[1];
     let cases_path = &args[2];
